@@ -205,6 +205,11 @@ class Aff:
     def only(self, syms: t.Iterable[str]) -> bool:
         return set(self.coef) <= set(syms)
 
+    def subst(self, sym: str, other: "Aff") -> "Aff":
+        k = self.coef.get(sym, 0)
+        rest = {s: v for s, v in self.coef.items() if s != sym}
+        return Aff(rest, self.const) + other.scale(k)
+
     def lin(self) -> Lin:
         if not self.only({"n"}):
             raise NotAffine(f"{self} has symbols beyond the boundary length")
@@ -348,6 +353,29 @@ class AffEval:
         raise NotAffine(f"`{norm(e)}`")
 
 
+def bind_args(fi: FuncInfo, call: ast.Call) -> dict[str, ast.AST] | None:
+    """parameter name -> argument expression for a ``self.<method>(...)`` call (None when not a plain binding)."""
+    a = fi.node.args  # type: ignore[attr-defined]
+    pos = [x.arg for x in a.posonlyargs + a.args]
+    if pos and pos[0] == "self":
+        pos = pos[1:]
+    if any(isinstance(x, ast.Starred) for x in call.args) or any(k.arg is None for k in call.keywords) or len(call.args) > len(pos):
+        return None
+    out: dict[str, ast.AST] = dict(zip(pos, call.args))
+    names = set(pos) | {x.arg for x in a.kwonlyargs}
+    for k in call.keywords:
+        if k.arg not in names or k.arg in out:
+            return None
+        out[k.arg] = k.value  # type: ignore[index]
+    defaults = dict(zip(reversed(pos), reversed(a.defaults)))
+    for x, d in zip(a.kwonlyargs, a.kw_defaults):
+        if d is not None:
+            defaults[x.arg] = d
+    for name, d in defaults.items():
+        out.setdefault(name, d)
+    return out
+
+
 def strip_max0(e: ast.AST) -> ast.AST:
     """``max(0, x)`` / ``max(x, 0)`` -> x  (a negative search position is clamped to 0 by ``re`` as well)."""
     if isinstance(e, ast.Call) and isinstance(e.func, ast.Name) and e.func.id == "max" and len(e.args) == 2 and not e.keywords:
@@ -417,15 +445,19 @@ class Typestate:
       ("S", key)                  stale: computed against a buffer / pattern that statement `key` replaced
     """
 
-    def __init__(self, repo, roles: Roles, window_of: t.Callable[[FuncInfo, ast.AST, Node], str | None]):
+    def __init__(self, repo, roles: Roles, window_of: t.Callable[..., str | None]):
         self.repo = repo
         self.r = roles
-        self.window_of = window_of  # (fi, value expr, node) -> regex text of the dominating search, or None
+        # (fi, value expr, node, key, call stack) -> regex text of the search the window belongs to, or None.
+        # The call stack [(caller, call, node of the call), ...] (outermost first) lets the callback read a window that a
+        # private helper computes from its arguments in the context of each call site.
+        self.window_of = window_of
+        self._stack: list[tuple[FuncInfo, ast.Call, Node]] = []
         self.sites: dict[int, SearchSite] = {}
         self.site_arrivals: dict[int, set] = {}
         self.stmts: dict[str, tuple[FuncInfo, ast.AST, str]] = {}  # key -> (fi, stmt, kind)
         self.stmt_arrivals: dict[str, set] = {}
-        self._memo: dict[tuple[str, frozenset], frozenset] = {}
+        self._memo: dict[tuple, frozenset] = {}
         self._busy: set[str] = set()
         self._relevant: dict[str, bool] = {}
 
@@ -539,7 +571,10 @@ class Typestate:
                 else:
                     if any(is_self_attr(x, self.r.offset) for x in ast.walk(value)):
                         raise AnalysisError(f"{fi.loc(a)}: search offset computed from its previous value is not modelled")
-                    rx = self.window_of(fi, value, n)
+                    # one window per calling context: a helper that stores `len(buffer) - <argument>` keeps a different
+                    # tail for each call site
+                    k += "".join(f"<{self.key(cf, cc)}" for cf, cc, _ in reversed(self._stack))
+                    rx = self.window_of(fi, value, n, k, tuple(self._stack))
                     if rx is None:
                         raise AnalysisError(f"{fi.loc(a)}: `{norm(a)}`: offset value is neither 0 nor `len(buffer) - K` after a search")
                     facts = frozenset((st, ("W", k, st, rx)) for st, _ in facts)
@@ -569,7 +604,11 @@ class Typestate:
             if isinstance(f, ast.Attribute) and isinstance(f.value, ast.Name) and f.value.id == "self":
                 _, what = self.repo.lookup(self.r.cls, f.attr)
                 if isinstance(what, FuncInfo) and self.relevant(what):
-                    facts = self.flow(what, facts)
+                    self._stack.append((fi, c, n))
+                    try:
+                        facts = self.flow(what, facts)
+                    finally:
+                        self._stack.pop()
             if isinstance(f, ast.Attribute) and f.attr == "search" and len(c.args) >= 2 and is_self_attr(c.args[0], self.r.buffer) and is_self_attr(c.args[1], self.r.offset):
                 self.sites[id(c)] = SearchSite(fi, c, f.value)
                 self.site_arrivals.setdefault(id(c), set()).update(facts)
@@ -578,7 +617,7 @@ class Typestate:
     # -- one method -----------------------------------------------------------------
     def flow(self, fi: FuncInfo, entry_facts: t.Iterable) -> frozenset:
         entry_facts = frozenset(entry_facts)
-        mk = (fi.qualname, entry_facts)
+        mk = (fi.qualname, entry_facts, tuple(id(c) for _, c, _ in self._stack))
         if mk in self._memo:
             return self._memo[mk]
         if fi.qualname in self._busy:
@@ -647,3 +686,245 @@ def fmt_off(off) -> str:
     if off[0] == "W":
         return f"window({off[2]})"
     return f"stale[{off[1]}]"
+
+
+# ---------------------------------------------------------------------------
+# hold-back anchor: "last index of a byte, or a fallback when the byte is absent"
+#
+# The anchor helper is summarised extensionally.  Its CFG is walked once per *order type* of its
+# argument (which of the bytes it looks for occur, and in which order their last occurrences
+# come) over the values {-1, last index of a byte, len(argument)}; only order comparisons,
+# min/max and selection are interpreted, so a function's results over all order types determine
+# it on every argument.  The results are then matched against `min|max over (last index of c, or
+# len / -1 when c is absent)`.  The spelling of the fallback does not matter: rindex + except
+# ValueError, rfind + `== -1` / `< 0` test, conditional expression, walrus, early return,
+# comparing two positions instead of calling min().
+
+A_LEN = ("len",)  # len(argument)
+A_NEG1 = ("int", -1)
+
+
+class _Unmodelled(Exception):
+    pass
+
+
+class _Raises(Exception):
+    def __init__(self, exc: str):
+        self.exc = exc
+
+
+class AnchorEval:
+    def __init__(self, fi: FuncInfo):
+        self.fi = fi
+        self.cfg = cfg_of(fi)
+        params = [p for p in fi.params if p != "self"]
+        if len(params) != 1:
+            raise _Unmodelled("expected one parameter")
+        self.p = params[0]
+        self.bytes: list[int] = []
+        for c in walk_no_nested(fi.node):
+            if isinstance(c, ast.Call) and isinstance(c.func, ast.Attribute) and c.func.attr in ("rindex", "rfind") and norm(c.func.value) == self.p:
+                b = self._byte(c)
+                if b not in self.bytes:
+                    self.bytes.append(b)
+        if not self.bytes or len(self.bytes) > 3:
+            raise _Unmodelled("no (or too many) last-index-of-byte lookups on the parameter")
+        for n in walk_no_nested(fi.node):
+            if isinstance(n, ast.Name) and n.id == self.p and isinstance(n.ctx, (ast.Store, ast.Del)):
+                raise _Unmodelled("the parameter is rebound")
+
+    def _byte(self, c: ast.Call) -> int:
+        if len(c.args) == 1 and not c.keywords and isinstance(c.args[0], ast.Constant) and isinstance(c.args[0].value, bytes) and len(c.args[0].value) == 1:
+            return c.args[0].value[0]
+        raise _Unmodelled(f"`{norm(c)}` is not a whole-argument lookup of one byte")
+
+    # -- order ---------------------------------------------------------------------
+    @staticmethod
+    def rank(v, order: tuple[int, ...]) -> int | None:
+        """position of a value in the order type: -1 < last occurrences in `order` < len(argument)"""
+        if v == A_NEG1:
+            return -1
+        if v[0] == "last":
+            return order.index(v[1])
+        if v == A_LEN:
+            return len(order)
+        return None
+
+    def signs(self, a, b, order: tuple[int, ...]) -> set[int]:
+        """possible signs of a - b under the order type"""
+        ra, rb = self.rank(a, order), self.rank(b, order)
+        if ra is not None and rb is not None:
+            return {(ra > rb) - (ra < rb)}
+        if a[0] == "int" and b[0] == "int":
+            return {(a[1] > b[1]) - (a[1] < b[1])}
+        # an index or a length (>= 0) against another integer constant
+        for x, y, sgn in ((a, b, 1), (b, a, -1)):
+            if y[0] == "int" and x[0] in ("last", "len"):
+                return {sgn} if y[1] < 0 else {0, sgn} if y[1] == 0 else {-1, 0, 1}
+        raise _Unmodelled(f"comparison of {a} with {b}")
+
+    def compare(self, a, b, order: tuple[int, ...]) -> int:
+        s = self.signs(a, b, order)
+        if len(s) != 1:
+            raise _Unmodelled(f"comparison of {a} with {b} is not decided by the order of the last occurrences")
+        return next(iter(s))
+
+    # -- expressions -----------------------------------------------------------
+    def ev(self, e: ast.AST, env: dict[str, t.Any], order: tuple[int, ...]):
+        if isinstance(e, ast.Constant) and isinstance(e.value, int) and not isinstance(e.value, bool):
+            return ("int", e.value)
+        if isinstance(e, ast.UnaryOp) and isinstance(e.op, ast.USub) and isinstance(e.operand, ast.Constant) and isinstance(e.operand.value, int):
+            return ("int", -e.operand.value)
+        if isinstance(e, ast.Name):
+            if e.id in env:
+                return env[e.id]
+            raise _Unmodelled(f"name `{e.id}`")
+        if isinstance(e, ast.NamedExpr):
+            v = self.ev(e.value, env, order)
+            env[e.target.id] = v
+            return v
+        if isinstance(e, ast.IfExp):
+            return self.ev(e.body if self.truth(e.test, env, order) else e.orelse, env, order)
+        if isinstance(e, ast.Call):
+            f = e.func
+            if isinstance(f, ast.Attribute) and f.attr in ("rindex", "rfind") and norm(f.value) == self.p:
+                b = self._byte(e)
+                if b in order:
+                    return ("last", b)
+                if f.attr == "rindex":
+                    raise _Raises("ValueError")
+                return A_NEG1
+            if isinstance(f, ast.Name) and f.id == "len" and len(e.args) == 1 and norm(e.args[0]) == self.p and not e.keywords:
+                return A_LEN
+            if isinstance(f, ast.Name) and f.id in ("min", "max") and not e.keywords and e.args and not any(isinstance(a, ast.Starred) for a in e.args):
+                if len(e.args) == 1:
+                    if not isinstance(e.args[0], (ast.Tuple, ast.List)) or not e.args[0].elts:
+                        raise _Unmodelled(f"`{norm(e)}`")
+                    args = list(e.args[0].elts)
+                else:
+                    args = list(e.args)
+                best = self.ev(args[0], env, order)
+                for a in args[1:]:
+                    v = self.ev(a, env, order)
+                    c = self.compare(v, best, order)
+                    if (c < 0 and f.id == "min") or (c > 0 and f.id == "max"):
+                        best = v
+                return best
+            if (dotted(f) or "").endswith("cast") and len(e.args) == 2:
+                return self.ev(e.args[1], env, order)
+        raise _Unmodelled(f"`{norm(e)}`")
+
+    def truth(self, e: ast.AST, env: dict[str, t.Any], order: tuple[int, ...]) -> bool:
+        if isinstance(e, ast.BoolOp):
+            res = isinstance(e.op, ast.And)
+            for v in e.values:  # short circuit, left to right (a walrus in a skipped operand does not bind)
+                res = self.truth(v, env, order)
+                if res != isinstance(e.op, ast.And):
+                    break
+            return res
+        if isinstance(e, ast.UnaryOp) and isinstance(e.op, ast.Not):
+            return not self.truth(e.operand, env, order)
+        if isinstance(e, ast.Compare) and len(e.ops) == 1:
+            a, b = self.ev(e.left, env, order), self.ev(e.comparators[0], env, order)
+            sg = self.signs(a, b, order)
+            table = {ast.Eq: {0}, ast.NotEq: {-1, 1}, ast.Lt: {-1}, ast.LtE: {-1, 0}, ast.Gt: {1}, ast.GtE: {0, 1}}
+            want = table.get(type(e.ops[0]))
+            if want is not None and sg <= want:
+                return True
+            if want is not None and not (sg & want):
+                return False
+            raise _Unmodelled(f"test `{norm(e)}` is not decided by the order of the last occurrences")
+        raise _Unmodelled(f"test `{norm(e)}`")
+
+    # -- one run ---------------------------------------------------------------------
+    def _handler_for(self, n: Node, exc: str) -> Node | None:
+        for h, lab in n.succs:
+            if lab == "exc" and h.kind == "handler":
+                ty = h.ast.type  # type: ignore[union-attr]
+                names = [dotted(x) or "?" for x in (ty.elts if isinstance(ty, ast.Tuple) else [ty])] if ty is not None else ["BaseException"]
+                if any(x.rsplit(".", 1)[-1] in (exc, "Exception", "BaseException") for x in names):
+                    return h
+        return None
+
+    def run(self, order: tuple[int, ...]):
+        env: dict[str, t.Any] = {}
+        n = self.cfg.entry
+        for _ in range(200):
+            a = n.ast
+            nxt: Node | None = None
+            try:
+                if n.kind == "test":
+                    lab = "T" if self.truth(a, env, order) else "F"  # type: ignore[arg-type]
+                    s = self.cfg.succ(n, lab)
+                    if len(s) != 1:
+                        raise _Unmodelled("branch without a successor")
+                    nxt = s[0]
+                elif n.kind == "stmt" and isinstance(a, ast.Return):
+                    if a.value is None:
+                        raise _Unmodelled("bare return")
+                    return self.ev(a.value, env, order)
+                elif n.kind == "stmt" and isinstance(a, (ast.Assign, ast.AnnAssign)):
+                    tgts = a.targets if isinstance(a, ast.Assign) else [a.target]
+                    if a.value is None:
+                        pass
+                    elif all(isinstance(x, ast.Name) for x in tgts):
+                        v = self.ev(a.value, env, order)
+                        for x in tgts:
+                            env[x.id] = v  # type: ignore[union-attr]
+                    elif len(tgts) == 1 and isinstance(tgts[0], ast.Tuple) and isinstance(a.value, ast.Tuple) and len(tgts[0].elts) == len(a.value.elts) \
+                            and all(isinstance(x, ast.Name) for x in tgts[0].elts):
+                        vs = [self.ev(x, env, order) for x in a.value.elts]
+                        for x, v in zip(tgts[0].elts, vs):
+                            env[x.id] = v  # type: ignore[attr-defined]
+                    else:
+                        raise _Unmodelled(f"`{norm(a)}`")
+                elif n.kind == "stmt" and isinstance(a, ast.Pass):
+                    pass
+                elif n.kind == "stmt" and isinstance(a, ast.Expr) and isinstance(a.value, ast.Constant):
+                    pass  # docstring
+                elif n.kind in ("entry", "handler"):
+                    pass
+                else:
+                    raise _Unmodelled(f"`{n.text()}`")
+            except _Raises as r:
+                nxt = self._handler_for(n, r.exc)
+                if nxt is None:
+                    raise _Unmodelled(f"{r.exc} escapes when a byte is absent")
+            if nxt is None:
+                s = [x for x, lab in n.succs if lab not in ("exc", "raise")]
+                if len(s) != 1 or s[0] is self.cfg.exit:
+                    raise _Unmodelled("falls off the end")
+                nxt = s[0]
+            n = nxt
+        raise _Unmodelled("loop")
+
+
+def anchor_summary(fi: FuncInfo) -> tuple[str, list[tuple[str, int]]] | None:
+    """what a hold-back anchor function computes: ("min"|"max"|"one", [(absent-value, byte), ...]) or None when not modelled.
+
+    Each term is the last index of one byte in the (only) parameter with a fallback for an argument without that
+    byte: "end" = len(argument), "-1" = -1.  The function is run abstractly for every order type of its argument; the
+    summary is the one combination of min/max and fallbacks that gives the same result for all of them."""
+    import itertools
+
+    try:
+        ae = AnchorEval(fi)
+        results = {}
+        for r in range(len(ae.bytes) + 1):
+            for order in itertools.permutations(ae.bytes, r):
+                v = ae.run(order)
+                if ae.rank(v, order) is None:
+                    return None
+                results[order] = v
+    except _Unmodelled:
+        return None
+    found = []
+    for comb in (("one",) if len(ae.bytes) == 1 else ("min", "max")):
+        for fbs in itertools.product((A_LEN, A_NEG1), repeat=len(ae.bytes)):
+            def predicted(order):
+                terms = [("last", b) if b in order else fb for b, fb in zip(ae.bytes, fbs)]
+                pick = max if comb == "max" else min
+                return pick(terms, key=lambda v: ae.rank(v, order))
+            if all(ae.rank(predicted(o), o) == ae.rank(v, o) for o, v in results.items()):
+                found.append((comb, [("end" if fb == A_LEN else "-1", b) for b, fb in zip(ae.bytes, fbs)]))
+    return found[0] if len(found) == 1 else None
